@@ -37,7 +37,8 @@ def render_files(case: dict, status=None) -> dict:
     case['layout'] (optional) = {'order': [phases]      the order in which the sections are first declared in the file,
                                  'split': [phases]      these are declared twice: the second half of their contents comes
                                                         under a second header at the end of the file,
-                                 'include': {phase: [at, n]}  n elements from index `at` stand in an included file}
+                                 'include': {phase: [at, n]}  n elements from index `at` stand in an included file,
+                                 'act_first_without_header': bool  the act contents stand first, before any header}
     None of this changes what is executed, or in which order: phases run in their fixed order, the instructions of a
     phase in file order (declarations merged, included lines spliced in at the place of the directive)."""
     layout = case.get('layout') or {}
@@ -49,10 +50,15 @@ def render_files(case: dict, status=None) -> dict:
     include = layout.get('include') or {}
     files = {}
     heads, tails = [], []
+    # "before any header, the act phase": the act contents may stand first in the file without a header
+    headerless_act = bool(layout.get('act_first_without_header')) and case.get('act') is not None and \
+        bool(case['act'].get('lines'))
+    if headerless_act:
+        heads.extend(case['act'].get('lines', []))
     for ph in order:
         if ph == 'act':
             act = case.get('act')
-            if act is not None:
+            if act is not None and not headerless_act:
                 heads.append('[act]')
                 heads.extend(act.get('lines', []))
             continue
@@ -104,6 +110,8 @@ def random_layout(g) -> dict:
     inc = {ph: [g.randint(0, 3), g.randint(1, 2)] for ph in INSTR_PHASES[1:] if g.random() < 0.15}
     if inc:
         layout['include'] = inc
+    if g.random() < 0.2:
+        layout['act_first_without_header'] = True
     return layout
 
 
